@@ -9,7 +9,7 @@ import (
 // Histories of up to 3 materialisations of ONE stream value over the reusable subset
 // (probe sources behave like Just: index reset on Open/Close; Map, Filter, lifecycles, Concat, ZipN, Merge).
 func init() {
-	Register("C18", Family{Gen: genC18, Exec: execPipe})
+	Register("C18", Family{Gen: func(c *Ctx) { genC18(c); genPipeDynHist(c) }, Exec: execPipeOrDyn}) // DYN: FlatMap family histories (pipedyn.go)
 }
 
 func genC18(c *Ctx) {
